@@ -92,6 +92,15 @@ func findRtTrip(r *gtfs.Realtime, key string) *gtfs.Trip {
 	return nil
 }
 
+// idDesc returns the vehicle descriptor if it identifies a vehicle: a descriptor that is absent, or present
+// with every field absent or empty, identifies nothing (the vehicle is then an id-less one).
+func idDesc(d map[string]any) map[string]any {
+	if d == nil || vehIDOfDesc(d) == (gtfs.VehicleID{}) {
+		return nil
+	}
+	return d
+}
+
 func vehIDOfDesc(d map[string]any) gtfs.VehicleID {
 	return gtfs.VehicleID{ID: gs(d, "id"), Label: gs(d, "label"), LicensePlate: gs(d, "licensePlate")}
 }
@@ -162,7 +171,7 @@ func oracleC07(in map[string]any, r *gtfs.Realtime, canon map[string]any) ([]Vio
 			}
 			tags["own-trip-entity"] = true
 		}
-		if vp := gm(e, "vehicle"); vp != nil && gm(vp, "vehicle") != nil {
+		if vp := gm(e, "vehicle"); vp != nil && idDesc(gm(vp, "vehicle")) != nil {
 			v := findRtVehicle(r, vehIDOfDesc(gm(vp, "vehicle")))
 			if v == nil || !v.IsEntityInMessage {
 				viols = append(viols, Viol{"c07-own-entity", fmt.Sprintf("vehicle %+v has an entity of its own but the result does not carry it", vehIDOfDesc(gm(vp, "vehicle")))})
@@ -278,12 +287,12 @@ func oracleC04(in map[string]any, r *gtfs.Realtime, canon map[string]any) ([]Vio
 	assocTrip := map[string]string{} // trip id -> "V:<vehicle id json>" or "noid:<entity index>"
 	ents := ga(gm(in, "msg"), "entities")
 	for ei, e := range ents {
-		if tu := gm(e, "tripUpdate"); tu != nil && gm(tu, "vehicle") != nil {
+		if tu := gm(e, "tripUpdate"); tu != nil && idDesc(gm(tu, "vehicle")) != nil {
 			assocTrip[descKey(gm(tu, "trip"))] = "V:" + mustJSON(vehIDOfDesc(gm(tu, "vehicle")))
 			tags["assoc-by-trip-update"] = true
 		}
 		if vp := gm(e, "vehicle"); vp != nil && gm(vp, "trip") != nil {
-			if gm(vp, "vehicle") != nil {
+			if idDesc(gm(vp, "vehicle")) != nil {
 				assocTrip[descKey(gm(vp, "trip"))] = "V:" + mustJSON(vehIDOfDesc(gm(vp, "vehicle")))
 				tags["assoc-by-vehicle-position"] = true
 			} else {
@@ -332,7 +341,7 @@ func oracleC04(in map[string]any, r *gtfs.Realtime, canon map[string]any) ([]Vio
 	// id-less vehicle positions carrying a trip must be linked
 	nIdlessWithTrip := 0
 	for _, e := range ents {
-		if vp := gm(e, "vehicle"); vp != nil && gm(vp, "trip") != nil && gm(vp, "vehicle") == nil {
+		if vp := gm(e, "vehicle"); vp != nil && gm(vp, "trip") != nil && idDesc(gm(vp, "vehicle")) == nil {
 			nIdlessWithTrip++
 		}
 	}
@@ -481,14 +490,14 @@ func oracleC02(in map[string]any, r *gtfs.Realtime, canon map[string]any) ([]Vio
 			d := gm(tu, "trip")
 			wantTrips[descKey(d)] = d
 			ownTrip[descKey(d)] = tu
-			if vd := gm(tu, "vehicle"); vd != nil {
+			if vd := idDesc(gm(tu, "vehicle")); vd != nil {
 				wantVeh[vehIDOfDesc(vd)] = true
 			}
 		} else if vp := gm(e, "vehicle"); vp != nil {
 			if d := gm(vp, "trip"); d != nil {
 				wantTrips[descKey(d)] = d
 			}
-			if vd := gm(vp, "vehicle"); vd != nil {
+			if vd := idDesc(gm(vp, "vehicle")); vd != nil {
 				wantVeh[vehIDOfDesc(vd)] = true
 				ownVeh[vehIDOfDesc(vd)] = vp
 			} else {
